@@ -18,25 +18,25 @@ RULE_ROUTER = ('cases are TLC-generated histories of Router.tla (BFS: every hist
 def sub(pool, **kw):
     """constant substitutions for a pool suffix of MC_Router.tla"""
     s = {'Cfgs': 'Cfgs' + pool, 'Bases': 'Bases' + pool, 'HOps': 'HOps' + pool, 'ROps': 'ROps' + pool, 'COps': 'COps' + pool,
-         'UOps': 'UOps' + pool, 'Probes': 'Probes' + pool, 'ProbeMethods': 'Methods' + pool, 'CaseExtra': 'NoExtra'}
+         'UOps': 'UOps' + pool, 'Probes': 'Probes' + pool, 'ProbeMethods': 'Methods' + pool, 'CaseExtra': 'NoExtra', 'UrlProbes': 'NoUrls'}
     s.update(kw)
     return s
 
 
-MC_INV = ['TableOK', 'C01_Sound', 'C03_Reach', 'C08_Derived', 'C04_Allow', 'C18_Any']
+MC_INV = ['TableOK', 'C01_Sound', 'C03_Reach', 'C08_Derived', 'C04_Allow', 'C18_Any', 'C10_Roundtrip']
 MC_PROPS = ['C17_Atomic', 'C03_Frame']
 
 
 def mc_router(pool, name=None):
     return {'kind': 'mc', 'name': name or ('router' + pool), 'module': 'MC_Router', 'subst': sub(pool),
-            'consts': {'Depth': 100, 'EmitAll': 'FALSE', 'Battery': '"last"'}, 'view': 'view',
+            'consts': {'Depth': 100, 'EmitAll': 'FALSE', 'Battery': '"last"', 'RoundTrip': 'FALSE'}, 'view': 'view',
             'invariants': MC_INV, 'properties': MC_PROPS}
 
 
-def gen_bfs(pool, depth, name=None, extra='NoExtra', props=None, limit=None, sample=None, module='MC_Router', consts=None):
-    c = {'Depth': depth, 'EmitAll': 'TRUE', 'Battery': '"last"'}
+def gen_bfs(pool, depth, name=None, extra='NoExtra', props=None, limit=None, sample=None, module='MC_Router', consts=None, rt=False, urls=None):
+    c = {'Depth': depth, 'EmitAll': 'TRUE', 'Battery': '"last"', 'RoundTrip': 'TRUE' if rt else 'FALSE'}
     c.update(consts or {})
-    return {'kind': 'gen', 'name': name or ('bfs%s%d' % (pool, depth)), 'module': module, 'subst': sub(pool, CaseExtra=extra),
+    return {'kind': 'gen', 'name': name or ('bfs%s%d' % (pool, depth)), 'module': module, 'subst': sub(pool, CaseExtra=extra, UrlProbes=(urls or 'NoUrls')),
             'consts': c, 'trace': 'Trace_Router', 'props': props, 'limit': limit, 'sample': sample}
 
 
@@ -45,9 +45,9 @@ def gogen(mode, n, name=None, props=None, seedoff=0):
             'seedoff': seedoff, 'min_per_shard': 2}
 
 
-def gen_sim(pool, depth, num, name=None, extra='NoExtra', props=None, seedoff=0):
-    return {'kind': 'gen', 'name': name or ('sim%s%d' % (pool, depth)), 'module': 'MC_Router', 'subst': sub(pool, CaseExtra=extra),
-            'consts': {'Depth': depth, 'EmitAll': 'FALSE', 'Battery': '"every"'}, 'simulate': num, 'depth': depth + 8,
+def gen_sim(pool, depth, num, name=None, extra='NoExtra', props=None, seedoff=0, module='MC_Router', rt=False):
+    return {'kind': 'gen', 'name': name or ('sim%s%d' % (pool, depth)), 'module': module, 'subst': sub(pool, CaseExtra=extra),
+            'consts': {'Depth': depth, 'EmitAll': 'FALSE', 'Battery': '"every"', 'RoundTrip': 'TRUE' if rt else 'FALSE'}, 'simulate': num, 'depth': depth + 8,
             'trace': 'Trace_Router', 'props': props, 'seedoff': seedoff}
 
 
@@ -114,7 +114,15 @@ def p_c17(q):
             gen_sim('X', 10, 80), gogen('mixed', 1500)]
 
 
+def p_c10(q):
+    if q:
+        return [mc_router('T'), gen_bfs('U', 1, module='MC_RouterU', urls='UrlProbesU', rt=True), gen_bfs('A', 1, rt=True), gen_sim('A', 6, 6, rt=True)]
+    return [mc_router('T'), mc_router('C', 'routerC'), gen_bfs('U', 1, module='MC_RouterU', urls='UrlProbesU', rt=True), gen_bfs('A', 2, rt=True, sample=0.5),
+            gen_bfs('B', 1, rt=True), gen_sim('A', 12, 40, rt=True)]
+
+
 ROUTER_PLANS = {
+    'C10': p_c10,
     'C01': p_c01, 'C02': p_c02, 'C03': p_c03, 'C04': p_c04, 'C05': p_c05, 'C17': p_c17,
     'T00': p_smoke, 'TA': p_dbg('A', 2), 'TB': p_dbg('B', 2), 'TC': p_dbg('C', 2), 'TX': p_dbg('X', 2),
 }
